@@ -24,6 +24,17 @@ REPORTED = ['ValueError', 'KeyError', 'TypeError', 'RuntimeError', 'OSError', 'E
 NOT_EXCEPTION = ['KeyboardInterrupt', 'SystemExit', 'GeneratorExit', 'BaseException']
 DIES = ['os_exit', 'sigkill', 'sigterm']
 KILLS = ['after_fork', 'in_callee', 'mid_send']
+CANCELS = ['before_start', 'in_callee', 'wait_for', 'after_sent']     # cancellation of the awaiting task
+
+
+def protected_wait():
+    """the wait of the current source has a cleanup handler (translator output): only then cancelled invocations are mixed
+    into concurrent batches - without it (open finding C17-K5) a cancelled invocation leaves its reader registered with the
+    loop under an fd number that the next Pipe() reuses, so that an unrelated later invocation never wakes up"""
+    try:
+        return 'PIfNotPollWaitH' in open(os.path.join(COQ, 'Gen', 'Subproc.v')).read()
+    except OSError:
+        return False
 KW_POOL = [{}, {'a': 1}, {'a': [1, 2, {'b': None}], 'c': 'x'}, {'n': -5, 's': 'é', 't': [True, 2.5]},
            # names of parameters / locals of the implementation itself: they are inputs like any other keyword
            {'args': 1, 'kwargs': {'x': 2}}, {'a': 0, 'kw_args': 1, 'target': 2}, {'self': 1, 'duplex': True, 'fd': 3},
@@ -46,10 +57,14 @@ DEMAND = {1: 'the callee\'s return value', 2: 'the callee\'s exception', 3: 'Run
 def mk(rng, **k):
     d = {'out': 'ok', 'exc': EXC['ValueError'], 'die': 'os_exit', 'big': False, 'pick': True, 'async': False, 'reterr': False,
          'kill': 'none', 'via': 'func', 'dur': 0, 'ticks': False, 'nonce': rng.randrange(10 ** 6), 'kw': rng.choice(KW_POOL),
-         'unp': False}
+         'unp': False, 'cancel': 'none'}
     d.update(k)
     if d['kill'] == 'mid_send':
         d['big'] = True
+    if d['cancel'] != 'none':
+        d['kill'] = 'none'
+        if d['cancel'] == 'after_sent':
+            d['dur'] = max(d['dur'], 30)     # the parent is suspended in its wait before the child sends
     if d['kill'] == 'after_fork':
         d['dur'] = max(d['dur'], 40)     # the callee cannot have reported before the kill lands
     return d
@@ -63,6 +78,9 @@ def coq_case(inv, r, ref=None):
     out = {'ok': 'COk', 'raise': 'CRaise', 'die': 'CDie'}[inv['out']]
     path = coq_list([coq_nat(x) for x in (inv['exc'] if inv['out'] == 'raise' else [])])
     kill = {'none': 'KNone', 'after_fork': 'KAfterFork', 'in_callee': 'KInCallee', 'mid_send': 'KMidSend'}[inv['kill']]
+    if inv.get('cancel', 'none') != 'none':
+        kill = {'before_start': 'KCancelBeforeStart', 'in_callee': 'KCancelInCallee', 'wait_for': 'KCancelInCallee',
+                'after_sent': 'KCancelAfterSent'}[inv['cancel']]
     code, opath = (r.get('final') or [0, []]) if r else [0, []]
     obs = {0: 'FReturnOther', 1: 'FReturnCallee', 2: 'FReturnOther', 7: 'FReturnOther', 3: '(FRaise XCallee)',
            4: '(FRaise XRetAttr)'}.get(code)
@@ -109,6 +127,15 @@ def gen_single(rng, tier, scale):
     for kw in KW_COLLIDING:
         invs.append(mk(rng, kw=kw, via='func'))
         invs.append(mk(rng, kw=kw, via='deco', out=rng.choice(['ok', 'raise']), **{'async': True}))
+    # the awaiting task is cancelled: task.cancel() before its first step / while the callee computes / although the
+    # child has already sent, asyncio.wait_for timeout (known finding C17-K5 on a tree without a handler around the wait)
+    for can in CANCELS:
+        for asy in both:
+            invs.append(mk(rng, cancel=can, via=rng.choice(['func', 'deco']), **{'async': asy}))
+    invs.append(mk(rng, cancel='after_sent', out='raise'))
+    invs.append(mk(rng, cancel='after_sent', out='die'))
+    invs.append(mk(rng, cancel='after_sent', big=True))
+    invs.append(mk(rng, cancel='in_callee', out='raise', big=True))
     invs.append(mk(rng, out='die', big=True))
     invs.append(mk(rng, out='die', kill='after_fork'))
     # malformed: outside what any implementation can pass through unchanged / the envelope collision
@@ -124,7 +151,7 @@ def gen_single(rng, tier, scale):
     return [{'invs': [i]} for i in invs]
 
 
-def random_inv(rng, crash=0.35):
+def random_inv(rng, crash=0.35, allow_cancel=True):
     r = rng.random()
     k = {'async': rng.random() < 0.5, 'via': rng.choice(['func', 'deco']), 'dur': rng.choice([0, 0, 2, 5, 9, 17, 30]),
          'ticks': rng.random() < 0.35, 'big': rng.random() < 0.2}
@@ -132,7 +159,10 @@ def random_inv(rng, crash=0.35):
         if rng.random() < 0.6:
             return mk(rng, **k)
         return mk(rng, out='raise', exc=EXC[rng.choice(REPORTED)], **k)
-    what = rng.choice(['die', 'die', 'notexc', 'unpick', 'kill', 'kill', 'kill', 'stopiter', 'reterr', 'unp', 'kwname'])
+    what = rng.choice(['die', 'die', 'notexc', 'unpick', 'kill', 'kill', 'kill', 'stopiter', 'reterr', 'unp', 'kwname']
+                      + (['cancel', 'cancel'] if allow_cancel else []))
+    if what == 'cancel':
+        return mk(rng, out=rng.choice(['ok', 'ok', 'raise', 'die']), cancel=rng.choice(CANCELS), **k)
     if what == 'unp':
         return mk(rng, out=rng.choice(['ok', 'raise']), unp=True, **k)
     if what == 'kwname':
@@ -159,7 +189,7 @@ def gen_concurrent(rng, tier, scale):
     sizes = sizes * scale
     for n in sizes:
         crash = rng.choice([0.0, 0.2, 0.35, 0.6])
-        invs = [random_inv(rng, crash=crash) for _ in range(n)]
+        invs = [random_inv(rng, crash=crash, allow_cancel=protected_wait()) for _ in range(n)]
         # at least two plain returning invocations with different durations: results must not cross
         a, b = rng.sample(range(n), 2)
         invs[a] = mk(rng, dur=rng.choice([12, 20, 30]), ticks=True)
@@ -204,6 +234,8 @@ def judge_inv(inv, r, m):
     m_path = m[8:8 + m[7]]
     if not r.get('hang') and code not in (6, 7) and spec_obs != 1:
         fails.append(f'the awaiting task {show(r["final"])} where the statement demands {DEMAND.get(demand)}')
+    if code == 5 and r['final'][1] == [4] and inv.get('cancel', 'none') == 'none':
+        fails.append('the awaiting task gets CancelledError although nobody cancelled it')
     if not r.get('hang') and code == 5 and uniform != 1:
         fails.append(f'the death of the child is reported by {name_of(r["final"][1])} here, but by {name_of(REF.get("path"))} when the child '
                      f'simply exits before sending anything (the report of a silent child death depends on the crash point)')
@@ -229,7 +261,7 @@ def judge_inv(inv, r, m):
             faithful = (inv['out'] == 'ok' and code == 1) or (inv['out'] == 'raise' and code == 3)
             unp_standin = (m_kind == 5 and m_path == [0, 31] and code == 5
                            and r['final'][1][:2] not in ([0, 11], [0, 12]))   # any class the handler does not catch
-            if unp_standin:
+            if unp_standin or (inv.get('cancel') == 'after_sent' and faithful):   # the task had finished before the cancel
                 pass
             elif not (inv['kill'] in ('mid_send', 'after_fork') and faithful):    # the whole message got through before the death
                 corr = f'implementation {show(r["final"])}, model {show([m_kind, m_path])}'
@@ -304,11 +336,15 @@ def matcher(finding, case, whats=None):
     if len(invs) != 1 or whats is None:
         return False
     i = invs[0]
-    plain = i['pick'] and i['kill'] == 'none' and not i.get('unp')
+    plain = i['pick'] and i['kill'] == 'none' and not i.get('unp') and i.get('cancel', 'none') == 'none'
     if m.get('id') == 'callee_returns_subprocess_error':
         return i['reterr'] and i['out'] == 'ok' and plain and kw_class(i) == 'KWNone' and list(whats) == [MSG_K1]
     if m.get('id') == 'payload_cannot_be_unpickled_in_parent':
         ok_in = (i.get('unp') and i['pick'] and i['out'] in ('ok', 'raise') and not i['reterr'] and kw_class(i) == 'KWNone')
+        return bool(ok_in and whats and all(w in LEAKS or any(re.match(rx, w) for rx in LEAK_RX) for w in whats))
+    if m.get('id') == 'cancelled_at_wait':
+        ok_in = (i.get('cancel') in ('in_callee', 'wait_for', 'after_sent') and i['pick'] and i['kill'] == 'none' and not i.get('unp')
+                 and not i['reterr'] and kw_class(i) == 'KWNone')
         return bool(ok_in and whats and all(w in LEAKS or any(re.match(rx, w) for rx in LEAK_RX) for w in whats))
     if m.get('id') == 'keyword_named_like_parameter':
         cls = kw_class(i)
@@ -347,7 +383,7 @@ def run(tier, seed, replay=None):
         streams = ['single'] * len(s1) + ['concurrent'] * len(s2)
     evals = rn.evaluate(cases)
 
-    hist = {'out': {}, 'exc': {}, 'kill': {}, 'batch_size': {}, 'outcome': {}, 'flags': {}}
+    hist = {'out': {}, 'exc': {}, 'kill': {}, 'cancel': {}, 'batch_size': {}, 'outcome': {}, 'flags': {}}
 
     def bump(h, k):
         hist[h][str(k)] = hist[h].get(str(k), 0) + 1
@@ -367,6 +403,7 @@ def run(tier, seed, replay=None):
             if inv['out'] == 'raise':
                 bump('exc', next(k for k, v in EXC.items() if v == inv['exc']))
             bump('kill', inv['kill'])
+            bump('cancel', inv.get('cancel', 'none'))
             for fl in ('big', 'async', 'reterr', 'ticks'):
                 if inv[fl]:
                     bump('flags', fl)
@@ -377,10 +414,10 @@ def run(tier, seed, replay=None):
                 bump('outcome', CODE.get(r['invs'][ii]['final'][0]))
                 if inv['kill'] == 'mid_send' and r['invs'][ii]['final'][0] == 5:
                     bump('flags', 'truncated-message-hit')
-            key = json.dumps([inv[k] for k in ('out', 'exc', 'die', 'big', 'pick', 'async', 'reterr', 'kill', 'via', 'ticks')]
+            key = json.dumps([inv.get(k) for k in ('out', 'exc', 'die', 'big', 'pick', 'async', 'reterr', 'kill', 'via', 'ticks', 'cancel', 'unp')]
                              + [len(c['invs']), ii if len(c['invs']) > 1 else 0, inv['nonce'] if len(c['invs']) > 1 else 0])
             ck.note_case(key, nontrivial=(len(c['invs']) > 1 or inv['out'] != 'ok' or inv['big'] or inv['async']
-                                          or inv['kill'] != 'none' or not inv['pick'] or inv['reterr']))
+                                          or inv['kill'] != 'none' or not inv['pick'] or inv['reterr'] or inv.get('cancel', 'none') != 'none'))
         if r and r.get('reordered'):
             bump('flags', 'batch-completed-out-of-call-order')
         if e['inv_fails'] or e['batch_fails']:
